@@ -11,8 +11,8 @@ TRUSTED_BASE = [
     "axioms limited to propext, Classical.choice, Quot.sound (audited per theorem with #print axioms)",
     "the statements in lean/PoryProofs/Properties/*.lean and the definitions of the specification they mention",
     "tools/factgen: the Lean tables it prints are the Go tables it read",
-    "correspondence harness (harness/run, lean/Main.lean, pylib): model = implementation only on the generated cases",
-    "not modelled: Go runtime (map order, stack, memory), encoding/json, flag parsing and file I/O of main.go, log output",
+    "correspondence harness (harness/run, lean/Main.lean, lean/PoryModel/AstDump.lean, pylib): model = implementation (compiled text, error values, parser AST) only on the generated cases",
+    "not modelled in Lean: Go runtime (map order, stack, memory), encoding/json, log output, main.go (flag parsing, file I/O) - main.go is tied to the library calls by the CLI correspondence on a slice of the cases",
 ]
 ASSUMPTIONS = [
     "Go int does not overflow (inputs, widths and parameters below 2^31)",
